@@ -93,6 +93,12 @@ def parsePulse? (t : List String) : Option PulseIn :=
            post := ← parseRat? post, fallStd := ← parseNat? fs, fallEom := ← parseNat? fe,
            dd := ← parseBool? dd, ref := ← parseNat? ref, sum := ← parseSum? sum,
            const := ← parseBool? const, amp := ← parseRat? amp, det := ← parseRat? det }
+  | [dur, res, phase, post, fs, fe, dd, ref, sum, sumAdj, const, amp, det] => do
+    pure { dur := ← parseNat? dur, resizable := ← parseBool? res, phase := ← parseRat? phase,
+           post := ← parseRat? post, fallStd := ← parseNat? fs, fallEom := ← parseNat? fe,
+           dd := ← parseBool? dd, ref := ← parseNat? ref, sum := ← parseSum? sum,
+           sumAdj := ← parseSum? sumAdj,
+           const := ← parseBool? const, amp := ← parseRat? amp, det := ← parseRat? det }
   | _ => none
 
 def parseEomIn? (t : List String) : Option EomIn :=
